@@ -1,10 +1,12 @@
 package ethereum
 
 import (
+	"bytes"
 	"fmt"
 
 	"github.com/ethereum/go-ethereum/accounts/keystore"
 	"github.com/ethereum/go-ethereum/common"
+	"github.com/ethereum/go-ethereum/crypto"
 
 	"github.com/keep-network/keep-common/pkg/chain/ethereum/ethutil"
 	"github.com/keep-network/keep-core/pkg/chain"
@@ -47,6 +49,65 @@ func (s *signer) PublicKeyBytesToAddress(publicKey []byte) chain.Address {
 	addressBytes := s.EthereumSigner.PublicKeyBytesToAddress(publicKey)
 
 	return chain.Address(common.BytesToAddress(addressBytes).String())
+}
+
+// Verify verifies the provided message against a signature using the
+// signer's own public key. See VerifyWithPublicKey.
+func (s *signer) Verify(message []byte, signature []byte) (bool, error) {
+	return s.VerifyWithPublicKey(message, signature, s.PublicKey())
+}
+
+// VerifyWithPublicKey verifies the provided message against a signature and
+// public key the way the on-chain contracts do it (ECDSA.recover): the
+// signature must have exactly 65 bytes [R || S || V], V must be 27 or 28 and
+// must be the recovery ID that recovers the given public key. The embedded
+// EthereumSigner checks only R and S and ignores V, so a signature accepted by
+// it alone could still be rejected by the contracts it is later submitted to.
+func (s *signer) VerifyWithPublicKey(
+	message []byte,
+	signature []byte,
+	publicKey []byte,
+) (bool, error) {
+	if len(signature) != ethutil.SignatureSize {
+		return false, fmt.Errorf(
+			"signature should have [%d] bytes; has: [%d]",
+			ethutil.SignatureSize,
+			len(signature),
+		)
+	}
+
+	ok, err := s.EthereumSigner.VerifyWithPublicKey(
+		message,
+		signature,
+		publicKey,
+	)
+	if err != nil || !ok {
+		return ok, err
+	}
+
+	v := signature[ethutil.SignatureSize-1]
+	if v != 27 && v != 28 {
+		return false, nil
+	}
+
+	recoverableSignature := make([]byte, ethutil.SignatureSize)
+	copy(recoverableSignature, signature)
+	recoverableSignature[ethutil.SignatureSize-1] = v - 27
+
+	prefixedHash := crypto.Keccak256(
+		[]byte(fmt.Sprintf("\x19Ethereum Signed Message:\n%v", len(message))),
+		message,
+	)
+
+	recoveredPublicKey, err := crypto.Ecrecover(
+		prefixedHash,
+		recoverableSignature,
+	)
+	if err != nil {
+		return false, nil
+	}
+
+	return bytes.Equal(recoveredPublicKey, publicKey), nil
 }
 
 func (bc *baseChain) Signing() chain.Signing {
